@@ -156,6 +156,7 @@ func c12(x *mon.Ctx) {
 			label += "+permuted-sgx-ext"
 		}
 		if i%10 == 7 { // Processor CA hierarchy: never accepted, but the PCK CRL request must name it
+			w = richHonest(r) // no other fault: the CRL fetch must be reached
 			proc := world.Issue(world.InterTemplate(world.CNProcessor, world.Far), w.PKI.Root, world.NewKey())
 			leaf := world.Issue(world.LeafTemplate(world.Far, world.SgxExtension(w.P)), proc, w.PKI.Leaf.Key)
 			w.Q.Chain = world.ChainPEM(false, leaf, proc, w.PKI.Root)
